@@ -67,7 +67,7 @@ def run_traces(ctx, prims):
 
 def run(ctx):
     ctx.samples.append({'constants': open(f'{vtlib.SPEC}/MC_MutexCore_quick.cfg').read()})
-    if not model_check(ctx):
+    if not os.environ.get('VERIF_SKIP_MC') and not model_check(ctx):
         return ctx.finish()
     ctx.build_lib()
     run_traces(ctx, PRIMS_Q if ctx.tier == 'quick' else PRIMS_T)
